@@ -208,3 +208,130 @@ pub fn c08_long() -> EnumOutcome {
     out.wall_s = t0.elapsed().as_secs_f64();
     out
 }
+
+// ------------------------------------------------------------------ C09: value conversion
+
+const C09_VALUE_SIGMA: [&str; 14] = ["0", "1", "2", "5", "9", "+", "-", ".", "e", "x", "_", " ", "a", "é"];
+
+/// strings of special interest for each family of types (boundaries of every integer width, float and bool
+/// spellings) in addition to the complete short-string enumeration
+fn c09_special_values() -> Vec<String> {
+    let mut v: Vec<String> = vec![];
+    for bits in [8u32, 16, 32, 64, 128] {
+        let umax = if bits == 128 { u128::MAX } else { (1u128 << bits) - 1 };
+        let imax = (1u128 << (bits - 1)) - 1;
+        for x in [umax - 1, umax, imax - 1, imax, imax + 1] {
+            v.push(format!("{}", x));
+            v.push(format!("+{}", x));
+            v.push(format!("-{}", x));
+            v.push(format!("0{}", x));
+        }
+        if bits < 128 {
+            v.push(format!("{}", umax + 1));
+            v.push(format!("-{}", imax + 2));
+        }
+    }
+    v.push("340282366920938463463374607431768211456".into());
+    v.push("-170141183460469231731687303715884105729".into());
+    for s in [
+        "true", "false", "TRUE", "True", "yes", "no", "on", "off", "t", "f", "inf", "-inf", "+inf", "infinity", "nan", "NaN", "-nan", "1e3", "1E3", "1e-3", "1e400", "1e-400", ".5", "5.", "0x10", "0b1", "0o7", "1_000", "１", "٣",
+        "3.4028235e38", "3.4028236e38", "1.7976931348623157e308", "1.7976931348623159e308", "-0", "-0.0", "+0", "00", "0.1", "1.0000001", "16777217",
+        "", " ", " 7", "7 ", "\t7", "a", "ab", "é", "éa", "中", "𝄞", "𝄞𝄞", "\u{301}", "a\u{301}", "'a'", "\\n",
+    ] {
+        v.push(s.to_string());
+    }
+    v.sort();
+    v.dedup();
+    v
+}
+
+fn conv_case<T>(o: &mut EnumOutcome, ty: &'static str, s: &str)
+where
+    T: for<'a> embedded_cli::arguments::FromArgument<'a> + std::str::FromStr + std::fmt::Debug,
+{
+    o.evaluations += 1;
+    let want: Option<String> = s.parse::<T>().ok().map(|v| format!("{:?}", v));
+    if want.is_some() {
+        o.distinct_nontrivial += 1;
+        o.stats.hit("accepted_values");
+    } else {
+        o.stats.hit("rejected_values");
+    }
+    let r = std::panic::catch_unwind(|| match <T as embedded_cli::arguments::FromArgument>::from_arg(s) {
+        Ok(v) => Ok(format!("{:?}", v)),
+        Err(e) => Err((e.value.to_string(), e.expected.to_string())),
+    });
+    let case = vec![ty.to_string(), s.to_string()];
+    match r {
+        Err(_) => o.viol("C09/panic", format!("{}::from_arg({:?}) panicked", ty, s), case),
+        Ok(Ok(g)) => {
+            if want.as_ref() != Some(&g) {
+                o.viol("C09/value-conversion", format!("{}::from_arg({:?}) gives {}, the type's own parser gives {:?}", ty, s, g, want), case);
+            }
+        }
+        Ok(Err((val, exp))) => {
+            if let Some(w) = want {
+                o.viol("C09/value-conversion", format!("{}::from_arg({:?}) is rejected, the type's own parser gives {}", ty, s, w), case);
+            } else if val != s || exp != ty {
+                o.viol("C09/value-error-payload", format!("{}::from_arg({:?}) reports value {:?} expected {:?}", ty, s, val, exp), case);
+            }
+        }
+    }
+}
+
+/// every supported field type x every string of <= max_len symbols over a numeric-looking alphabet plus the
+/// boundary values of every width: `FromArgument::from_arg` must agree with the type's `FromStr`
+pub fn c09_values(max_len: u32) -> EnumOutcome {
+    let t0 = Instant::now();
+    let n = count_strings(C09_VALUE_SIGMA.len() as u64, max_len);
+    let special = c09_special_values();
+    let mut strings: Vec<String> = vec![];
+    let mut tmp = String::new();
+    for i in 0..n {
+        nth_string(&C09_VALUE_SIGMA, i, &mut tmp);
+        strings.push(tmp.clone());
+    }
+    strings.extend(special);
+    let mut out = strings
+        .par_chunks(512)
+        .map(|chunk| {
+            let mut o = EnumOutcome::default();
+            for s in chunk {
+                conv_case::<u8>(&mut o, "u8", s);
+                conv_case::<i8>(&mut o, "i8", s);
+                conv_case::<u16>(&mut o, "u16", s);
+                conv_case::<i16>(&mut o, "i16", s);
+                conv_case::<u32>(&mut o, "u32", s);
+                conv_case::<i32>(&mut o, "i32", s);
+                conv_case::<u64>(&mut o, "u64", s);
+                conv_case::<i64>(&mut o, "i64", s);
+                conv_case::<u128>(&mut o, "u128", s);
+                conv_case::<i128>(&mut o, "i128", s);
+                conv_case::<usize>(&mut o, "usize", s);
+                conv_case::<isize>(&mut o, "isize", s);
+                conv_case::<f32>(&mut o, "f32", s);
+                conv_case::<f64>(&mut o, "f64", s);
+                conv_case::<char>(&mut o, "char", s);
+                conv_case::<bool>(&mut o, "bool", s);
+                // &str: handed through unchanged
+                o.evaluations += 1;
+                match <&str as embedded_cli::arguments::FromArgument>::from_arg(s) {
+                    Ok(v) if v == s.as_str() => {}
+                    other => o.viol("C09/value-conversion", format!("<&str>::from_arg({:?}) gives {:?}", s, other.map_err(|e| e.expected)), vec!["&str".into(), s.clone()]),
+                }
+            }
+            o
+        })
+        .reduce(EnumOutcome::default, |mut a, b| {
+            a.merge(b);
+            a
+        });
+    let total = strings.len() as u64 * 17;
+    out.name = format!("value conversion: 17 field types x every string of <= {} symbols over {:?} and {} boundary spellings", max_len, C09_VALUE_SIGMA, strings.len() as u64 - n);
+    out.rule = "FromArgument::from_arg against the type's own FromStr (Debug rendering; rejected values must be reported with the value and the type name); non-trivial = the type's parser accepts the string".into();
+    out.expected = Some(total);
+    out.exhaustive = out.evaluations == total;
+    out.samples = vec![json!({"type": "i8", "value": "-128"}), json!({"type": "f32", "value": "1e3"})];
+    out.wall_s = t0.elapsed().as_secs_f64();
+    out
+}
